@@ -15,6 +15,7 @@ class Ctx:
         self.alerts = []       # contract / probe alerts raised while a case runs
         self.probe_alerts = 0
         self.lib = None
+        self.exc_trace = None  # when a list: the class names of the exceptions caught by attempt(), in order (C19 compares the two configurations)
 
     def tick(self, name, nonvacuous=True):
         m = self.mon.setdefault(name, [0, 0])
@@ -72,6 +73,8 @@ def attempt(f, *a, **k):
         try:
             return Outcome(True, f(*a, **k))
         except Exception as e:  # "refused" = any exception (DESIGN 7.5)
+            if CTX.exc_trace is not None and len(CTX.exc_trace) < 200:
+                CTX.exc_trace.append(type(e).__name__)
             return Outcome(False, exc=e, tb=traceback.format_exc(limit=6))
 
 
